@@ -390,23 +390,30 @@ fn rewrite_stream(rep: &mut Report, rng: &mut Rng) {
     std::env::set_current_dir("/verif").unwrap();
 }
 
-/// closed witnesses of Props/C11.lean replayed on the real code
+/// closed witnesses of Props/C11.lean replayed on the real code (the witnesses of the two former
+/// findings C11-dotdot-not-relativised and C11-mapping-backslash are corpus cases with recorded
+/// expectations, corpus/C11, replayed first; part Partial has its own in partial.rs)
 fn witnesses(rep: &mut Report) {
     let base = rep.workdir.join("fs");
-    let t = materialise(&base, 900, &["src".into(), "other".into(), "cw".into()], &["src/a.c".into()]);
+    let t = materialise(&base, 901, &["src".into(), "other".into(), "cw".into()], &["src/a.c".into()]);
     std::env::set_current_dir(&t.cw).unwrap();
-    let plain = |sd: Option<String>, mapping: Option<Vec<(String, String)>>| Cfg {
-        sd, pd: None, mapping, ignore: vec![], keep: vec![], ine: false, filter: None,
-    };
     let cases = vec![
-        // C11_normal_form_false: a mapped value with backslashes reaches the report as x/../y.c
-        ("mapping_backslash", Case {
-            cfg: plain(None, Some(vec![("a.c".into(), "x\\..\\y.c".into())])),
+        // C11_relative_under_source_dir_false: a mapped value `foo\bar.c` below the source dir is
+        // reported as (src/foo\bar.c, foo/bar.c)
+        ("backslash_name", Case {
+            cfg: Cfg { sd: Some(t.src.clone()), pd: None, mapping: Some(vec![("a.c".into(), "foo\\bar.c".into())]),
+                ignore: vec![], keep: vec![], ine: false, filter: None },
             entries: vec![("a.c".to_string(), gen_cov(&mut Rng::new(1), 0))],
         }),
     ];
     for (name, case) in cases {
-        let out = show_recs(&run_impl(&case.cfg, &case.entries));
+        let r = run_impl(&case.cfg, &case.entries);
+        if let Ok(v) = &r {
+            if v.len() == 1 && v[0].0 == format!("{}/foo\\bar.c", t.src) && v[0].1 == "foo/bar.c" {
+                rep.count(&format!("witness.{}.reproduced_on_real_code", name));
+            }
+        }
+        let out = show_recs(&r);
         let req = request("rewrite", &t, &case.cfg, &case.entries);
         let model = run_model_named("gm_c11", &[req.clone()], &rep.workdir, "witness");
         rep.case(&req, true);
